@@ -149,8 +149,8 @@ func runC18(r *Run) {
 		if (rp == nil && cp == nil) || (rp != nil && rp == cp) {
 			// both levels merged into one map before the substitution: the request level is written last (last wins)
 			mergeOf := func(field string) ssa.Instruction {
-				for _, b := range u.Blocks {
-					for _, in := range b.Instrs {
+				{
+					for _, in := range instrsWhere(u, func(in ssa.Instruction) bool { _, ok := in.(*ssa.MapUpdate); return ok }) {
 						mu, ok := in.(*ssa.MapUpdate)
 						if !ok {
 							continue
